@@ -195,12 +195,145 @@ def nested_and_reset_stream(ctx, res):
                 res.violate("C09:reload-differs:nested", "after save and load a challenge inside a list item no longer verifies its secret", case)
 
 
+def routes_stream(ctx, res):
+    """every way a secret reaches a challenge field leaves a salted hash and nothing else: (a) a field with a validator of the
+    application's own (constructor argument or decorator) — the validator is handed the digest value, the configuration holds a
+    digest value; (b) every way of adding an entry to a typed dict / list of challenge values (item assignment, update in its call
+    forms, setdefault on a new key, |=, append, insert, +=, whole assignment), also two levels down; (c) a plaintext written by hand
+    into an INCLUDED file replaces a stored salt / digest of the including file and is hashed"""
+    import os as _os
+    import cincoconfig as cc
+    from cincoconfig.fields import DigestValue
+    from cincoconfig.support import validator as register
+    for alg in ("md5", "sha256"):
+        hfun = getattr(hashlib, alg)
+
+        def verifies(d, plain):
+            pb = plain if isinstance(plain, bytes) else plain.encode()
+            return isinstance(d, DigestValue) and d.digest == hfun(d.salt + pb).digest()
+        # (a)
+        for how in ("ctor", "decorator"):
+            for route in ("attr", "ctor-keyword", "bytes", "load-plaintext", "nested"):
+                seen = []
+
+                def keep(cfg, v, seen=seen):
+                    seen.append(type(v).__name__)
+                    return v
+                s = cc.Schema()
+                h = s.auth if route == "nested" else s
+                h.pw = cc.ChallengeField(alg, validator=keep, required=(route == "nested")) if how == "ctor" else cc.ChallengeField(alg, required=(route == "nested"))
+                if how == "decorator":
+                    register(h.pw)(keep)
+                secret = b"raw-\xff-bytes" if route == "bytes" else "s3cret-\u00e9\u4e2d"
+                case = {"stream": "routes", "what": "custom-validator", "alg": alg, "validator_given_by": how, "route": route}
+                res.case(stable(case), kind="routes:validator")
+                try:
+                    if route == "ctor-keyword":
+                        cfg = s(pw=secret)
+                    else:
+                        cfg = s()
+                        if route == "load-plaintext":
+                            cfg.load_tree({"pw": secret})
+                        elif route == "nested":
+                            cfg.auth.pw = secret
+                        else:
+                            cfg.pw = secret
+                    held = cfg.auth.pw if route == "nested" else cfg.pw
+                except Exception as e:  # noqa
+                    res.violate("C09:route:raised", "giving a secret to a challenge field with a validator raised %s" % type(e).__name__, dict(case, error=str(e)[:100]))
+                    continue
+                if not verifies(held, secret) or any(t != "DigestValue" for t in seen) or not seen:
+                    res.violate("C09:route:plaintext-held", "a challenge field with a validator of the application's own does not hold a salted hash of the secret (or the validator "
+                                "was handed the plaintext)", dict(case, held_type=type(held).__name__, validator_received=seen))
+        # (b)
+        item = cc.Schema()
+        item.tokens = cc.DictField(cc.StringField(), cc.ChallengeField(alg), default=dict)
+        item.pins = cc.ListField(cc.ChallengeField(alg), default=lambda: [])
+        s = cc.Schema()
+        s.users = cc.DictField(cc.StringField(), cc.ChallengeField(alg), default=dict)
+        s.pins = cc.ListField(cc.ChallengeField(alg), default=lambda: [])
+        s.accounts = cc.ListField(item, default=lambda: [])
+        for holder in ("root", "second-item"):
+            cfg = s()
+            cfg.accounts = [{}, {}]
+            d = cfg.users if holder == "root" else cfg.accounts[1].tokens
+            l = cfg.pins if holder == "root" else cfg.accounts[1].pins
+            adds = [("d[k] = s", lambda: d.__setitem__("a", "sec-a"), "a", "sec-a"), ("update(mapping)", lambda: d.update({"b": "sec-b"}), "b", "sec-b"),
+                    ("update(k=s)", lambda: d.update(c="sec-c"), "c", "sec-c"), ("update(pairs)", lambda: d.update([("e", "sec-e")]), "e", "sec-e"),
+                    ("setdefault(new key)", lambda: d.setdefault("f", "sec-f"), "f", "sec-f"), ("|=", lambda: d.__ior__({"g": "sec-g"}), "g", "sec-g")]
+            for label, do, key, secret in adds:
+                case = {"stream": "routes", "what": "dict-entry", "alg": alg, "holder": holder, "route": label}
+                res.case(stable(case), kind="routes:dict")
+                try:
+                    ret = do()
+                    held = d[key]
+                except Exception as e:  # noqa
+                    res.violate("C09:route:raised", "adding a secret to a dict of challenge values raised %s" % type(e).__name__, dict(case, error=str(e)[:100]))
+                    continue
+                if not verifies(held, secret) or (label.startswith("setdefault") and not verifies(ret, secret)):
+                    res.violate("C09:route:plaintext-held", "an entry added to a dict of challenge values is not a salted hash of the secret", dict(case, held_type=type(held).__name__))
+            ladds = [("append", lambda: l.append("pin-1"), "pin-1"), ("insert", lambda: l.insert(0, "pin-2"), "pin-2"), ("+=", lambda: l.__iadd__(["pin-3"]), "pin-3"),
+                     ("extend", lambda: l.extend(("pin-4",)), "pin-4"), ("slice", lambda: l.__setitem__(slice(0, 0), ["pin-5"]), "pin-5")]
+            for label, do, secret in ladds:
+                case = {"stream": "routes", "what": "list-item", "alg": alg, "holder": holder, "route": label}
+                res.case(stable(case), kind="routes:list")
+                try:
+                    do()
+                    okk = any(verifies(x, secret) for x in l) and all(isinstance(x, DigestValue) for x in l)
+                except Exception as e:  # noqa
+                    okk = False
+                if not okk:
+                    res.violate("C09:route:plaintext-held", "an item added to a list of challenge values is not a salted hash of the secret", case)
+            for fmt in FORMATS:
+                try:
+                    doc = cfg.dumps(format=fmt)
+                    leaked = [x for x in ("sec-a", "sec-f", "pin-1", "pin-5") if x.encode() in doc]
+                except Exception as e:  # noqa
+                    leaked = ["dumps raised %s" % type(e).__name__]
+                if leaked:
+                    res.violate("C09:plaintext-in-document", "a secret added to a typed container of challenge values shows in a document (or the save fails)",
+                                {"stream": "routes", "alg": alg, "holder": holder, "fmt": fmt, "leaked": leaked})
+                    break
+        # (c)
+        tmp = ctx.tmpdir()
+        for fmt in ("json", "yaml"):
+            s = cc.Schema()
+            s.include = cc.IncludeField(startdir=tmp)
+            s.password = cc.ChallengeField(alg)
+            s.auth.include = cc.IncludeField(startdir=tmp)
+            s.auth.password = cc.ChallengeField(alg)
+            saver = s()
+            saver.password = "old-top-secret"
+            saver.auth.password = "old-nested-secret"
+            tree = saver.to_tree()
+            F_ = cc.ConfigFormat.get(fmt)
+            with open(_os.path.join(tmp, "top-%s.%s" % (alg, fmt)), "wb") as fh:
+                fh.write(F_.dumps(None, {"password": "new-top-secret-\u00e9"}))
+            with open(_os.path.join(tmp, "nested-%s.%s" % (alg, fmt)), "wb") as fh:
+                fh.write(F_.dumps(None, {"password": ""}))
+            tree["include"] = "top-%s.%s" % (alg, fmt)
+            tree["auth"]["include"] = "nested-%s.%s" % (alg, fmt)
+            case = {"stream": "routes", "what": "included-plaintext", "alg": alg, "fmt": fmt}
+            res.case(stable(case), kind="routes:include")
+            cfg = s()
+            try:
+                cfg.loads(F_.dumps(None, tree), format=fmt)
+                ok_top = verifies(cfg.password, "new-top-secret-\u00e9")
+                ok_old = verifies(cfg.password, "old-top-secret")
+            except Exception as e:  # noqa
+                res.violate("C09:hand-written-not-hashed", "loading a document whose include file holds a hand-written plaintext raised %s" % type(e).__name__, dict(case, error=str(e)[:100]))
+                continue
+            if not ok_top or ok_old:
+                res.violate("C09:hand-written-not-hashed", "a plaintext written by hand into an included file did not replace the stored digest of the including file (or was not hashed)", case)
+
+
 def run(ctx):
     from cincoconfig import Schema, ChallengeField
     from cincoconfig.fields import DigestValue
     import os as _os
     res = Result()
     guard(res, "C09", nested_and_reset_stream, ctx, res)
+    guard(res, "C09", routes_stream, ctx, res)
     rng = ctx.rng
     reqs, pend = [], []
     for alg in ALGS:
